@@ -4,10 +4,14 @@
    node in plan order, the node's whole script once or nothing), a command runs exactly when some target of
    the rule could neither be confirmed nor recovered (needs_rebuild), a target whose current hash equals the
    remembered one is left untouched, and a target whose remembered content is in the cache is restored, not
-   rebuilt. NOT proved: the history-level form ("already built from byte-identical sources in an earlier
-   build of the history" implies the remembered entry is found), which needs the history-soundness
-   invariant of C01; it is monitored on every history by an independent ledger. *)
-From Ruler Require Import Bytes AList RuleSyntax TopoSort World Cmdlang Work Build Ops BuildSpec BuildFacts C02Extra.
+   rebuilt. Round 2 (below; proofs in Proofs/C02{Hist,Repeat,Recover,Keep,Revert,Sym}.v) adds the history-level
+   statements: one rule thread whose history has the entry and whose targets are in place or in the cache
+   executes nothing; repeating a successful build is a no-op; reverting a source recovers the earlier targets
+   without running a command when contents are pairwise different — and the refutation showing that the
+   literal "revert" clause fails when two targets hold byte-identical outputs (one cache entry per content,
+   and a restore MOVES it): a known finding, see known_findings.json. *)
+From Ruler Require Import Bytes AList RuleSyntax TopoSort World Cmdlang Work Build Ops Inv BuildSpec Ideal BuildFacts InvFacts C01Hist C01Facts
+     C02Extra C02Hist C02Repeat C02Recover C02Keep C02Revert C02Sym.
 
 Theorem C02_at_most_once :
   forall (T : Type) (teqb : T -> T -> bool) (hc : bytes -> T) (hl : list T -> T) (hr : rule -> T)
@@ -55,4 +59,91 @@ Theorem C02_rebuild_only_on_cache_miss :
     restore teqb w r p = RNotThere <-> exists c, cache_of w = Some c /\ alookup teqb c r = None.
 Proof. exact restore_not_there_iff. Qed.
 
+(* ------------------------------------------------------------------------------------------------------
+   HISTORY LEVEL. *)
+Local Notation build_sym := (build sym_eqb SContent SList SRule).
+
+(* one rule thread: the rule's history has an entry for the current sources, and each target either still hashes to
+   the remembered output or the cache holds it (two targets that must both come out of the cache needing different
+   entries): no script line is executed, whatever the command is, and the remembered hashes are what is sent on *)
+Theorem C02_recorded_rule_is_not_rerun : forall (w : world sym) (b : blob sym) h key cmd remembered,
+  disk_inv sym_eqb SContent w -> InvProofs.blob_ok sym sym_eqb SContent w b ->
+  alookup sym_eqb h key = Some remembered ->
+  length remembered = length b -> NoDup (map fst b) -> cache_of w <> None ->
+  (forall i p a r, nth_error b i = Some (p, a) -> nth_error remembered i = Some r ->
+     get_file_ticket sym_eqb SContent w p a = Some (fs_t r) \/
+     exists c f, cache_of w = Some c /\ alookup sym_eqb c (fs_t r) = Some f) ->
+  (forall i j pi ai ri pj aj rj, i <> j ->
+     nth_error b i = Some (pi, ai) -> nth_error remembered i = Some ri ->
+     nth_error b j = Some (pj, aj) -> nth_error remembered j = Some rj ->
+     get_file_ticket sym_eqb SContent w pi ai <> Some (fs_t ri) ->
+     get_file_ticket sym_eqb SContent w pj aj <> Some (fs_t rj) -> fs_t ri <> fs_t rj) ->
+  exists wr w' ress,
+    handle_rule sym_eqb SContent w b h key cmd = (Ok wr, w', []) /\
+    wr_option wr = Resolutions ress /\ needs_rebuild ress = false /\ wr_history wr = Some h /\
+    wr_tickets wr = map fs_t remembered.
+Proof. exact handle_rule_no_rerun_sym. Qed.
+
+(* "repeating a build with nothing changed runs no command and modifies no file outside the ruler directory":
+   after a successful build of a plan whose commands write only their own targets (the rules file not being one),
+   the same build again — at once or later — succeeds, executes nothing, leaves every file outside the ruler
+   directory and the whole cache exactly as they are, and reports every target Up-to-date. Sound histories and
+   determinism are not needed. *)
+Theorem C02_repeated_build_is_a_noop : forall (w : world sym) rp goal w1 tbl pack,
+  disk_inv sym_eqb SContent w -> init_dir sym w = Ok (w1, tbl) -> get_nodes sym w1 rp goal = Ok pack ->
+  Forall node_confined (p_nodes pack) -> ~ In rp (plan_targets pack) ->
+  o_verdict (build_sym w rp goal) = VOk ->
+  forall w2, w2 = o_world (build_sym w rp goal) \/ w2 = tick (o_world (build_sym w rp goal)) ->
+  let o2 := build_sym w2 rp goal in
+  o_verdict o2 = VOk /\ o_commands o2 = [] /\
+  w_files (o_world o2) = w_files w2 /\
+  rd_cache (w_rd (o_world o2)) = rd_cache (w_rd w2) /\
+  Forall (fun s => fst s = BUpToDate) (o_status o2).
+Proof. exact repeat_build_noop_confined_sym. Qed.
+
+(* "reverting a source to an earlier version brings the earlier targets back from the cache instead of re-running
+   commands": build, edit a leaf source, build, put the leaf back, build — the third build succeeds, executes
+   nothing, every target holds what it held after the first build, every status is Up-to-date or Recovered —
+   PROVIDED no content that a target held after the first build also occurs at another target after the first or
+   the second build (one cache entry per content). *)
+Theorem C02_revert_recovers_earlier_targets : forall (w0 : world sym) rp goal w1 tbl pack s f c',
+  disk_inv sym_eqb SContent w0 ->
+  init_dir sym w0 = Ok (w1, tbl) -> get_nodes sym w1 rp goal = Ok pack ->
+  Forall node_confined (p_nodes pack) -> ~ In rp (plan_targets pack) ->
+  In s (p_leaves pack) -> s <> rp -> fget w0 s = Some f ->
+  let b1 := build_sym w0 rp goal in
+  let wA := tick (o_world b1) in
+  let b2 := build_sym (tick (write_file wA s c')) rp goal in
+  let wB := tick (o_world b2) in
+  let wC := tick (write_file wB s (f_content f)) in
+  let b3 := build_sym wC rp goal in
+  o_verdict b1 = VOk -> o_verdict b2 = VOk ->
+  (forall t t' c, In t (plan_targets pack) -> In t' (plan_targets pack) -> t <> t' ->
+     content_at wA t = Some c -> (content_at wA t' = Some c \/ content_at wB t' = Some c) -> False) ->
+  o_verdict b3 = VOk /\ o_commands b3 = [] /\
+  (forall t, In t (plan_targets pack) -> content_at (o_world b3) t = content_at wA t) /\
+  Forall (fun st => fst st = BUpToDate \/ fst st = BRecovered) (o_status b3).
+Proof. exact revert_recovers_confined_sym. Qed.
+
+(* The proviso is needed, i.e. the literal sentence of the property is FALSE of ruler: with the rules a <- s,
+   b <- a, c <- a (plain copies, so a, b, c are byte-identical) the build after the revert recovers `a` and RE-RUNS
+   the commands of b and c, because the cache holds one file per content and a restore moves it out (witness by
+   vm_compute on the model; the same history on the implementation is the replay of the known finding
+   C02:revert-reruns-byte-identical-outputs). *)
+Theorem C02_revert_clause_literal_refuted :
+  ~ (forall (w0 : world sym) rp goal w1 tbl pack s f c',
+       disk_inv sym_eqb SContent w0 -> hist_sound sym sym_eqb SContent SList SRule w0 ->
+       init_dir sym w0 = Ok (w1, tbl) -> get_nodes sym w1 rp goal = Ok pack ->
+       Forall det_node (p_nodes pack) -> ~ In rp (plan_targets pack) ->
+       In s (p_leaves pack) -> s <> rp -> fget w0 s = Some f ->
+       let b1 := build_sym w0 rp goal in
+       let wA := tick (o_world b1) in
+       let b2 := build_sym (tick (write_file wA s c')) rp goal in
+       let wB := tick (o_world b2) in
+       let wC := tick (write_file wB s (f_content f)) in
+       let b3 := build_sym wC rp goal in
+       o_verdict b1 = VOk -> o_verdict b2 = VOk -> o_commands b3 = []).
+Proof. exact revert_recovers_without_distinctness_refuted. Qed.
+
 Check C02_at_most_once.
+Check C02_repeated_build_is_a_noop.
